@@ -868,17 +868,21 @@ func (g *FnGen) nameSites() {
 		g.siteNames[ins] = fmt.Sprintf("%s#%d", label, counts[label])
 	}
 	// ordinals follow source order (position), not SSA block order
+	// (an instruction without a position takes the position of the nearest preceding instruction
+	// of its block that has one, so that the comparison is a proper order)
 	var all []ssa.Instruction
+	eff := map[ssa.Instruction]token.Pos{}
 	for _, b := range g.fn.Blocks {
-		all = append(all, b.Instrs...)
-	}
-	sort.SliceStable(all, func(i, j int) bool {
-		pi, pj := all[i].Pos(), all[j].Pos()
-		if !pi.IsValid() || !pj.IsValid() {
-			return false
+		last := token.NoPos
+		for _, ins := range b.Instrs {
+			if p := ins.Pos(); p.IsValid() {
+				last = p
+			}
+			eff[ins] = last
+			all = append(all, ins)
 		}
-		return pi < pj
-	})
+	}
+	sort.SliceStable(all, func(i, j int) bool { return eff[all[i]] < eff[all[j]] })
 	for _, blk := range [][]ssa.Instruction{all} {
 		for _, ins := range blk {
 			switch x := ins.(type) {
